@@ -25,6 +25,7 @@ import (
 	"strconv"
 	"strings"
 	"testing"
+	"unsafe"
 
 	"github.com/miekg/dns"
 	"github.com/semihalev/sdns/internal/wire"
@@ -94,6 +95,7 @@ func vC10WRLE(b []byte) string {
 
 type vC10PCall struct {
 	tr    int
+	addr  uintptr  // where the slice handed to Transport.Write lives (identifies the packer's buffer)
 	bytes []byte   // Transport.Write
 	msg   *dns.Msg // Transport.WriteMsg
 }
@@ -102,6 +104,10 @@ type vC10PTr struct {
 	tcp      bool
 	internal bool
 	calls    *[]vC10PCall
+	// during runs once inside the next Write, BEFORE the transport has taken the bytes: a transport
+	// whose Write parks (tcpStream.stage flushes a full drain buffer to a slow client first and copies
+	// the new payload afterwards; a datagram send sits in its syscall) while other requests are served
+	during func()
 }
 
 func (t *vC10PTr) LocalAddr() net.Addr { return &net.UDPAddr{IP: net.IPv4(127, 0, 0, 1), Port: 53} }
@@ -116,7 +122,16 @@ func (t *vC10PTr) WriteMsg(m *dns.Msg) error {
 	return nil
 }
 func (t *vC10PTr) Write(b []byte) (int, error) {
-	*t.calls = append(*t.calls, vC10PCall{tr: t.id, bytes: append([]byte(nil), b...)})
+	if f := t.during; f != nil {
+		t.during = nil
+		f() // b is not touched before this returns
+	}
+	var addr uintptr
+	if len(b) > 0 {
+		addr = uintptr(unsafe.Pointer(&b[0]))
+	}
+	// the address is taken on entry, the bytes when the (possibly parked) write gets to them
+	*t.calls = append(*t.calls, vC10PCall{tr: t.id, addr: addr, bytes: append([]byte(nil), b...)})
 	return len(b), nil
 }
 func (t *vC10PTr) Close() error   { return nil }
@@ -125,9 +140,29 @@ func (t *vC10PTr) Internal() bool { return t.internal }
 // a record type the library does not own (TryPack declines it; the library packs it like an A)
 type vC10ForeignA struct{ *dns.A }
 
+// fixed histories replayed first (corpus/C10/wpath-regressions.json): reqs are "msg" / "msg-foreign" /
+// "msg-extrcode" / "bytes" / "garbage" / "wire"
+type vC10PathCorpus struct {
+	Name     string   `json:"name"`
+	Internal bool     `json:"internal"`
+	Direct   bool     `json:"direct"`
+	Parked   bool     `json:"parked"`
+	Reqs     []string `json:"reqs"`
+}
+
 func vC10PathCases(f *os.File, r *rand.Rand, n int) {
 	p := newPipeline(nil, map[string]Handler{}, nil, RecursionWorkPolicy{})
-	for cn := 0; cn < n; cn++ {
+	var corpus []vC10PathCorpus
+	if dir := os.Getenv("VERIF_CORPUS"); dir != "" {
+		if b, err := os.ReadFile(dir + "/wpath-regressions.json"); err == nil {
+			_ = json.Unmarshal(b, &corpus)
+		}
+	}
+	for cn := -len(corpus); cn < n; cn++ {
+		var fix *vC10PathCorpus
+		if cn < 0 {
+			fix = &corpus[cn+len(corpus)]
+		}
 		var calls []vC10PCall
 		ch := p.NewChain()
 		// some history on the chain first: another transport, a reply written
@@ -146,6 +181,16 @@ func vC10PathCases(f *os.File, r *rand.Rand, n int) {
 			calls = nil
 		}
 		tr := &vC10PTr{id: 1 + r.Intn(4), tcp: r.Intn(2) == 0, internal: r.Intn(3) == 0, calls: &calls}
+		direct := r.Intn(3) != 0
+		// half of the cases: this request's transport write PARKS (see vC10PTr.during); those are mostly
+		// on a declared byte sink, as the owned stream transports are
+		parked := r.Intn(2) == 0
+		if parked && r.Intn(4) != 0 {
+			direct, tr.internal = true, false
+		}
+		if fix != nil {
+			direct, tr.internal, parked = fix.Direct, fix.Internal, fix.Parked
+		}
 		req := new(dns.Msg)
 		req.SetQuestion(fmt.Sprintf("q.c%d.wpath.test.", cn), dns.TypeA)
 		req.Id = uint16(r.Intn(65536))
@@ -154,15 +199,51 @@ func vC10PathCases(f *os.File, r *rand.Rand, n int) {
 		} else {
 			ch.ResetWire(tr, NewRequest(req))
 		}
-		direct := r.Intn(3) != 0
 		if direct {
 			ch.AllowDirectPack()
 		}
 		base := ch.Writer.(*responseWriter)
 		var reqs, obs, desc, fails []string
+		// half of the cases: while this request's transport write is parked, ANOTHER client's request is
+		// served on another chain of the same pipeline and answered through WriteMsg on a byte sink
+		var nested []vC10PCall // the transport call of the request served while this one's write was parked
+		var nestedWant []byte
+		if parked {
+			cn2 := cn
+			tr.during = func() {
+				var calls2 []vC10PCall
+				defer func() { nested = calls2 }()
+				tr2 := &vC10PTr{id: 8, calls: &calls2}
+				q2 := new(dns.Msg)
+				q2.SetQuestion(fmt.Sprintf("other-client.c%d.wpath.test.", cn2), dns.TypeA)
+				q2.Id = 0x7777
+				ch2 := p.NewChain()
+				ch2.Reset(tr2, q2)
+				ch2.AllowDirectPack()
+				m2 := new(dns.Msg)
+				m2.SetReply(q2)
+				for i := 0; i < 3; i++ {
+					m2.Answer = append(m2.Answer, &dns.A{Hdr: dns.RR_Header{Name: q2.Question[0].Name, Rrtype: dns.TypeA, Class: dns.ClassINET, Ttl: 77}, A: net.IPv4(10, 7, 7, byte(i))})
+				}
+				want2, _ := m2.Pack()
+				nestedWant = want2
+				_ = ch2.Writer.WriteMsg(m2)
+				if len(calls2) != 1 || calls2[0].msg != nil || string(calls2[0].bytes) != string(want2) {
+					fails = append(fails, "the request served while this one's transport write was parked did not get its own reply")
+				}
+				p.PutChain(ch2)
+			}
+		}
 		msgNo := map[*dns.Msg]int{}
+		ownBytes := map[int][]byte{} // request index -> what the pooled packer yields for its message
 		kinds := map[string]int{}
+		if parked {
+			kinds["transport-write-parks"]++
+		}
 		nreq := 1 + r.Intn(4)
+		if fix != nil {
+			nreq = len(fix.Reqs)
+		}
 		for i := 0; i < nreq; i++ {
 			m := new(dns.Msg)
 			m.SetReply(req)
@@ -170,6 +251,26 @@ func vC10PathCases(f *os.File, r *rand.Rand, n int) {
 			m.Rcode = []int{0, 0, 0, dns.RcodeNameError, dns.RcodeServerFailure, dns.RcodeRefused}[r.Intn(6)]
 			before := len(calls)
 			k := r.Intn(10)
+			sub := r.Intn(5)
+			if parked && i == 0 && r.Intn(2) == 0 {
+				k, sub = 9, 4 // an ordinary WriteMsg first
+			}
+			if fix != nil {
+				switch fix.Reqs[i] {
+				case "bytes":
+					k = 0
+				case "garbage":
+					k = 2
+				case "wire":
+					k = 3
+				case "msg-foreign":
+					k, sub = 9, 0
+				case "msg-extrcode":
+					k, sub = 9, 1
+				default:
+					k, sub = 9, 4
+				}
+			}
 			switch {
 			case k < 2: // Write of well-formed bytes
 				b, _ := m.Pack()
@@ -188,7 +289,7 @@ func vC10PathCases(f *os.File, r *rand.Rand, n int) {
 				_ = base.WriteWire(b, WireInfo{Rcode: m.Rcode})
 				kinds["WriteWire"]++
 			default: // WriteMsg: ordinary / a record TryPack declines / an extended rcode without OPT
-				switch r.Intn(5) {
+				switch sub {
 				case 0:
 					m.Answer = append(m.Answer, vC10ForeignA{&dns.A{Hdr: dns.RR_Header{Name: req.Question[0].Name, Rrtype: dns.TypeA, Class: dns.ClassINET, Ttl: 5}, A: net.IPv4(10, 3, 3, 3)}})
 					kinds["WriteMsg-foreign-rr"]++
@@ -200,10 +301,13 @@ func vC10PathCases(f *os.File, r *rand.Rand, n int) {
 				}
 				// the environment: does the pooled packer take this message, and what does it yield
 				packed := "None"
+				var packedBytes []byte
 				handled, _ := wire.TryPack(m, func(body []byte) error {
 					packed = "(Some " + vC10WRLE(body) + ")"
+					packedBytes = append([]byte(nil), body...)
 					return nil
 				})
+				ownBytes[i] = packedBytes
 				if !handled {
 					packed = "None"
 				}
@@ -227,6 +331,9 @@ func vC10PathCases(f *os.File, r *rand.Rand, n int) {
 					desc = append(desc, fmt.Sprintf("WriteMsg(msg %d)->tr %d", no, c.tr))
 				} else {
 					obs = append(obs, fmt.Sprintf("Some (%d,Some %s,0)", c.tr, vC10WRLE(c.bytes)))
+					if own, isMsg := ownBytes[i]; isMsg && own != nil && string(own) != string(c.bytes) {
+						fails = append(fails, fmt.Sprintf("request %d: WriteMsg handed the transport %d octets that are not the packed form of its message (%d octets)", i+1, len(c.bytes), len(own)))
+					}
 					desc = append(desc, fmt.Sprintf("Write(%d octets)->tr %d", len(c.bytes), c.tr))
 				}
 				if c.tr != tr.id {
@@ -243,17 +350,48 @@ func vC10PathCases(f *os.File, r *rand.Rand, n int) {
 		}
 		fin := fmt.Sprintf("(%d,%s,%s,%s)", base.rcode, vC10WBool(base.Written()), vC10WBool(base.msg != nil), vC10WBool(base.wire != nil))
 		line := map[string]any{
-			"k": "wpath",
+			"k": map[bool]string{true: "wpath", false: "corpus:wpath-" + func() string {
+				if fix != nil {
+					return fix.Name
+				}
+				return ""
+			}()}[fix == nil],
 			"coq": fmt.Sprintf("CaseWPath %d %s %s %s [%s] [%s] %s", tr.id, vC10WBool(tr.tcp), vC10WBool(tr.internal), vC10WBool(direct),
 				strings.Join(reqs, ";"), strings.Join(obs, ";"), fin),
 			"nontrivial": len(calls) == 1 && nreq > 1,
-			"desc":       map[string]any{"transport": tr.id, "internal": tr.internal, "direct": direct, "calls": desc, "kinds": kinds, "final_rcode_written_msg_wire": fin},
+			"desc":       map[string]any{"transport": tr.id, "internal": tr.internal, "direct": direct, "transport_write_parks": parked, "calls": desc, "kinds": kinds, "final_rcode_written_msg_wire": fin},
 		}
 		if len(fails) > 0 {
 			line["go_fail"] = strings.Join(fails, "; ")
 		}
 		b, _ := json.Marshal(line)
 		f.Write(append(b, '\n'))
+		// the pack-state view of the same history: this request's WriteMsg went out as bytes while its
+		// transport write was parked and another request was packed and sent in between
+		if len(calls) == 1 && calls[0].msg == nil && len(nested) == 1 && nested[0].msg == nil {
+			first := -1
+			for i := 0; i < nreq; i++ {
+				if own, ok := ownBytes[i]; ok && own != nil {
+					first = i
+					break
+				}
+			}
+			if first >= 0 && direct && !tr.internal && (first == 0 || strings.HasPrefix(reqs[0], "WB") && strings.Contains(reqs[0], "false")) && obs[first] != "None" {
+				k2 := 1
+				if nested[0].addr == calls[0].addr {
+					k2 = 0 // the packer handed the second request the buffer the first one's transport still holds
+				}
+				pl := map[string]any{"k": strings.Replace(line["k"].(string), "wpath", "wpack", 1), "nontrivial": true,
+					"coq": fmt.Sprintf("CasePack [PP 1 0 %s;PWB 1;PP 2 %d %s;PWB 2;PC 2;PR 2;PC 1;PR 1] [(2,%s);(1,%s)]",
+						vC10WRLE(ownBytes[first]), k2, vC10WRLE(nestedWant), vC10WRLE(nested[0].bytes), vC10WRLE(calls[0].bytes)),
+					"desc": map[string]any{"same_buffer": k2 == 0, "octets_1": len(calls[0].bytes), "octets_2": len(nested[0].bytes)}}
+				if k2 == 0 {
+					pl["go_fail"] = "the packer handed a second request the buffer whose bytes the first request's transport had not taken yet"
+				}
+				b, _ := json.Marshal(pl)
+				f.Write(append(b, '\n'))
+			}
+		}
 		p.PutChain(ch)
 	}
 }
